@@ -803,6 +803,16 @@ class _Calls:
             m = getattr(self, 'dm_' + meth, None)
             if m:
                 return m(node, st, recv)
+        if k == 'seq' and meth == 'append' and isinstance(node.func.value, ast.Name) and self.proc.locals.get('$value_lists'):
+            # a list this function built itself (comprehension / display) and holds in one local only, kept by value:
+            # x.append(v) rebinds the local.  The contract asserts the absence of aliases ('$value_lists', listed).
+            out = []
+            for s, (v,) in self.args1(node, st, 1):
+                cur = s.env[node.func.value.id]
+                et = cur.ty.args[0]
+                s.env[node.func.value.id] = V(cur.ty, Concat(cur.t, Unit(self.coerce(v, et, s).t)))
+                out.append((s, VNONE))
+            return out
         if k == 'seq' and meth == 'index':
             return self.sm_index(node, st, recv)
         if k == 'name':
@@ -965,6 +975,11 @@ class _Calls:
                     out.append((s, vbool(True)))
                 else:
                     out.append((s, vbool(is_name(box(v)))))
+                continue
+            if v.ty.kind in ('seq', 'list') and set(names) <= {'list', 'tuple'}:
+                # a value the contract types as a sequence: whether it is a list or a tuple is not tracked (sequences are
+                # modelled by value); the check is taken to hold (only met in `assert isinstance(x, list)`)
+                out.append((s, vbool(True)))
                 continue
             if v.ty.kind != 'obj':
                 raise Unsupported(node, 'isinstance on %r' % (v.ty,))
